@@ -56,6 +56,7 @@ def run(ctx):
         if len(done) == 2:
             break
     tails = [b"", b"\x00", bytes(rng.getrandbits(8) for _ in range(5))]
+    env_fails = codec.env_variants_check(cl, [(i, a) for i, a, _ in insts[:: max(1, len(insts) // (600 if thorough else 150))]])
     lines, meta = [], []
     fails, disagreements = [], []
     nontrivial = set()
@@ -97,7 +98,7 @@ def run(ctx):
         "distinct_nontrivial": len(nontrivial),
         "rule": "case = (class, canonical value, tail); non-trivial iff a field is non-default (or the "
                 "class has no defaults) and the encoding is ≥ 2 bytes; distinct by SHA-1 of the triple",
-        "classes_covered": len(idxs), "instances_per_class": per,
+        "classes_covered": len(idxs), "environment_variants": [v[0] for v in codec.ENV_VARIANTS], "instances_per_class": per,
         "encodable": len(sizes), "max_encoded_bytes": max(sizes or [0]),
         "mean_encoded_bytes": round(sum(sizes) / max(1, len(sizes)), 1),
         "model_requests": len(lines), "disagreements": len(disagreements),
@@ -106,6 +107,8 @@ def run(ctx):
     })
     for f in fails[:3]:
         ctx.violation(f"{f['class']}: decode(encode(x)+tail) != (x, tail)", {**f, "check": "c01"})
+    for f in env_fails[:2]:
+        ctx.violation(f"{f['class']}: {f['what']}", {**f, "check": "c01-env"})
     if disagreements and not fails:
         ctx.broken.append(f"correspondence enc/dec: {len(disagreements)} disagreement(s); first: {disagreements[0]}")
         ctx.notes.append({"disagreements": disagreements[:5]})
